@@ -158,3 +158,15 @@ Theorem C02_level0_check_insufficient_refuted :
   imm_of sha256 wit_level2_parent = Err EDepth /\
   masks_ok wit_level2_parent.
 Proof. exact level0_check_insufficient_refuted. Qed.
+
+(** *** results are values *)
+
+(** Not vacuous: a hasher that returns views of one scratch buffer answers
+    every request correctly at the moment of the call (the answers are the fresh
+    ones), yet the first answer the caller still holds shows the second. *)
+Theorem C02_scratch_buffer_refuted :
+  let answers := hasher_run sha256 false wit_two_cells new_hasher [OpHash 0; OpHash 1] in
+  answers = map (fresh_op sha256 wit_two_cells) [OpHash 0; OpHash 1] /\
+  nth_error (end_view_scratch answers) 0 = nth_error answers 1 /\
+  end_view_scratch answers <> answers.
+Proof. exact scratch_buffer_refuted. Qed.
